@@ -17,16 +17,16 @@ CHECKS = {
         technique="explicit-state exhaustive enumeration of operation sequences on the real frame.Frame vs. a plain-slice reference model",
         text=("Every sequence of frame operations (Slice, Copy with aliasing, AppendFrame, Grow, Ensure, Swap, Zero, Prefixed, sort.Sort, "
               "decode-into-view) up to depth 3 (quick; 4 for the pointer-free type) / 4 (thorough) from every (off,len) view of a parent frame, "
-              "for 8 column-type combinations, is executed on the real implementation; after every step the complete underlying storage, inside "
+              "for 13 column-type combinations (incl. parents whose columns have unequal capacities and parents built from columns with spare capacity, len < cap), is executed on the real implementation; after every step the complete underlying storage, inside "
               "and outside the view, plus Len/Cap/Index/Value/SliceHeader/Less/Hash/encode-decode are compared with a model built from ordinary Go slices."),
-        note=TRUSTED + " Bounded: parent frames of 5-6 rows, depth as stated, 8 type combinations.",
+        note=TRUSTED + " Bounded: parent frames of 5-6 rows, depth as stated, 13 type combinations (+ the width and shared-column layers described in the evidence).",
         design_ref="§5 C11",
     ),
     "C03": dict(
         category="model_checking", engine="vsched",
         technique="stateless model checking of the instrumented real exec.Eval under a controlled scheduler (delay- and preemption-bounded, happens-before state caching) + explicit-state search of the evaluator's scheduling core",
         text=("The real exec.Eval (source-instrumented: every mutex, channel, select, go statement and map iteration goes through the vsched runtime) is run on "
-              "hand-built task graphs (single, chain2, chain3, diamond, two roots sharing a dependency, shuffle phase with task groups) with a harness Executor whose "
+              "hand-built task graphs (single, chain2, chain3, diamond, two roots sharing a dependency, shuffle phase with task groups; plus, for selected initial states, a producer phase forked to two roots, a phase whose members have DIFFERENT one-to-one dependencies (re-shuffle tasks over a reused result) and a phase of 10 producers - more simultaneous completions than the evaluator's completion channel buffers) with a harness Executor whose "
               "task outcomes OK/LOST/ERR and later losses of completed tasks are environment choices. For EVERY assignment of initial states INIT/OK/LOST/ERR to the tasks, "
               "and for one and two concurrent evaluations sharing the tasks, all schedules with <= 1-2 (quick) / 2-3 (thorough) deviations from the default scheduler (delay bounding) "
               "and <= 1 (quick) / 2 (thorough) preemptions are enumerated modulo happens-before equivalence. Monitors check: no hand-out over a dependency that never completed / is in ERROR / "
@@ -34,13 +34,13 @@ CHECKS = {
               "or the consecutive-loss limit (exactly 5 hand-outs) was reached; no deadlock. A second layer drives the unexported scheduling core (Enqueue/Return/Runnable/Done) through every history of "
               "task outcomes up to depth 5/7 from every initial assignment with explicit-state de-duplication."),
         note=TRUSTED + " vsched assumptions: explored code is data-race free; all blocking interactions go through instrumented constructs (unmanaged-operation counter reported); 64-bit history hashes do not collide. "
-             "Bounded: graphs of <= 4 tasks, stated deviation bounds, environment loss budget < 5 except in the always-lost scenarios; per-plan time budgets (hitting one sets exhaustive:false).",
+             "Bounded: graphs of <= 5 tasks (one of 11), stated deviation bounds, environment loss budget < 5 except in the always-lost scenarios; per-plan time budgets (hitting one sets exhaustive:false).",
         design_ref="§4 E1, §5 C03",
     ),
     "C18": dict(
         category="exploration",
         technique="exhaustive enumeration of the cross product of a finite universe of slice types x function signatures per constructor against independent schema predicates",
-        text=("Full cross product (54k constructor calls) of 15 input slice types x 135 function values (plus column tuples, shard counts, prefix values, argument tuples) for Const, ReaderFunc, WriterFunc, Map, Filter, "
+        text=("Full cross product (54k constructor calls) of 24 input slice types (incl. named key types of hashable kind without registered ops, int64 keys, context-implementing column types) x 135 function values (plus column tuples, shard counts, prefix values, argument tuples) for Const, ReaderFunc, WriterFunc, Map, Filter, "
               "Flatmap, Fold, Head, Scan, Prefixed, Reduce, Cogroup, Reshuffle, Repartition, Reshard, Func, Invocation and Apply. An independent predicate per constructor transcribed from its doc comment decides "
               "accept/reject; on reject the panic value must be a *typecheck.Error whose file:line is the harness call site and no user function may have run; on accept the result has the documented columns, prefix and shard count. "
               "Cases the documentation leaves open are excluded a priori (rules R0-R8 listed in the evidence)."),
@@ -95,7 +95,7 @@ CHECKS = {
         text=("Task stores: every history of <=4 (quick) / 5 (thorough) operations {Create, Write, Commit, Discard(writer), Open(off in {0,1,len-1,len,len+1}), Stat, Discard(entry)} on two keys, on the real memoryStore and the real fileStore "
               "(on the vfs:// fault-injecting in-memory implementation of base/file); every fileStore history is re-run once per file-operation label with that operation failing, failing after a partial write, or crashing. "
               "Oracle: nothing visible before a successful Commit; then exactly the committed bytes from any offset and the record count until discarded; a Commit or Open whose underlying operation failed returns an error. "
-              "retryReader: committed 6-byte stream, EVERY opener script over {deliver 1-3 bytes, fail, deliver k then fail, open fails} up to retry budget+2 (budget read from the real policy object), with and without recovery: "
+              "retryReader: committed 6-byte stream, EVERY opener script over {deliver 1-3 bytes, fail, deliver k then fail, open fails} up to retry budget+2 (budget read from the real policy object), with and without recovery, x the VALUE of the transient failure (plain error, io.ErrUnexpectedEOF, io.ErrClosedPipe, io.ErrNoProgress, context.DeadlineExceeded of a sub-call, base-errors Net / Unavailable / Temporary): "
               "exactly the stream or an error, and an error only after the budget is exhausted."),
         note=TRUSTED + " The vfs package models close-commit atomicity of real file implementations (self-checked at start). Fault pairs are not enumerated; the sliceio decoding layer above retryReader is not driven here.",
         design_ref="§4 E3, §5 C15",
@@ -114,7 +114,7 @@ CHECKS = {
     "C08": dict(
         category="exploration",
         technique="bounded-exhaustive enumeration of slice programs, each compiled seven ways (driver, repeated, re-invoked, real worker.Compile from transported bytes, two separately started processes) and compared on a canonical graph dump + structural invariants",
-        text=("19k (quick) / 110k (thorough) programs: all operator chains to depth 3 over 16 operators with shard counts 1-3, shared sub-slices consumed with different partition counts, custom partitioners, combiners with and without "
+        text=("19k (quick) / 110k (thorough) programs: all operator chains to depth 3 over 16 operators with shard counts 1-3, shared sub-slices consumed with different partition counts (also behind 40 pipelined operators: long task names), custom partitioners, combiners with and without "
               "machine combiners, nested shuffles, pragma placements, Cache/CachePartial with every subset of shards pre-cached, and Result arguments (pipelined, shuffled, nested, repeated). For each program the real compile runs on the driver, "
               "again, on a fresh re-invocation, through the real (*worker).Compile from the bytes shipped to workers, and in two separately started child processes; the canonical graph (task names modulo the process-global invocation index, "
               "shard/partition counts, combiner keys, groups, per-dependency head/partition/expand/key) must be identical in all, every task name the driver uses must resolve on the worker, and the invariants of the statement must hold: acyclic, "
@@ -129,7 +129,7 @@ CHECKS = {
               "scratch 1-3): Combine of 1-3 row frames with values +-1 and Compact, BFS to depth 5 (quick) / 7 (thorough) over three alphabets (210/24/13 operations; reaching growth 8->16->32, mid-batch resizes, displaced keys after rehash), "
               "state = capacity, length, threshold and hits/key/value of every slot; oracle after every history: slots == map model, Compact returns each key once. Phase B drives the real spilling combiner with spill thresholds 1,2,3,5, "
               "several chunk/merge-buffer/spill-batch sizes, int, string and 2-column keys; state additionally includes every spilled run; every history is read back through Reader() and WriteTo: strictly ascending keys, one row per key, "
-              "exact folds; spill directories must be gone afterwards."),
+              "exact folds; spill directories must be gone afterwards. Families around boundaries: one hot key combined N = 2^k-1, 2^k, 2^k+1 times (k to 16/18); struct values; a combiner that spilled at R Combine calls, R = 1, 2, 2^k-1, 2^k, 2^k+1 (to 513 / 2049) and 100, 192, 200, 300, 320 (many sorted runs for the final merge)."),
         note=TRUSTED + " Accessors expose makeCombiningFrame/newCombiner and dump slots; no combiner logic is re-implemented. Random large skewed sequences are another family and not done.",
         design_ref="§5 C09",
     ),
@@ -140,7 +140,7 @@ CHECKS = {
               "each registered concrete type, nested Results) go through the real execInvocation encode/decode, an in-process (*worker).Compile and a separately started process: decoded arguments must equal the originals (Results map to the worker-local "
               "Result) and the compiled graph must equal the driver's; lists the codec rejects must be rejected as errors. (b) Unencodable arguments (func, chan, unregistered concrete type in an interface, typed nil pointer, ...) on 1- and 2-machine "
               "vsys clusters, one driver process per run: Run must return an error promptly with ZERO Worker.Run RPCs and no retry loop, and the driver must survive. (c) bigslice.FuncLocationsDiff on ALL ordered pairs of location lists of length <=4 "
-              "(<=5 thorough) over a 3-letter alphabet: empty iff equal, and the edit script transforms one list into the other."),
+              "(<=5 thorough) over a 3-letter alphabet: empty iff equal, and the edit script transforms one list into the other. (d)/(e) end-to-end Result-argument DAGs on growing clusters, also with a transient Worker.Compile error. (f) bigslice.FuncLocations follows the registry: every word over {query, create one more Func} up to length 5 (7 thorough), each in a fresh process; every answer must list exactly the Funcs registered so far and differ from the initial list exactly when something was registered."),
         note=TRUSTED + " Part (b) is not judged on the local executor (the statement speaks about workers). A worker with a different gob registry is outside the checked system.",
         design_ref="§5 C16",
     ),
@@ -230,7 +230,7 @@ CHECKS = {
         category="exploration",
         technique="differential enumeration of a configuration lattice (all configurations within 1 / 2 deviations of the default, plus the full product of the session options) over 14 executor-path-specific programs, against the default configuration and an independent reference evaluator",
         text=("14 programs chosen so that every executor path differs (combiner with few keys / with 900 keys and spills, prefixed reduce, Cogroup expand-deps, Fold, reshuffle/repartition/reshard with a WriterFunc placement check, nested shuffles, shared "
-              "sub-slice, Head, Flatmap, Scan/WriterFunc observers, a Cache program run cold and warm, an ordered shuffle-free pipeline, 3-way Cogroup) run under every configuration with <=1 deviation from the default (quick: 69 configurations, 560 evaluations) "
+              "sub-slice, Head, Flatmap, Scan/WriterFunc observers, a Cache program run cold and warm, an ordered shuffle-free pipeline, a Flatmap directly over a reader that delivers its last rows together with EOF, 3-way Cogroup; plus fan-out, diamond-of-invocations, pointer-column and producer-placement stress programs) run under every configuration with <=1 deviation from the default (quick: 69 configurations, 560 evaluations) "
               "and <=2 deviations plus the full product machines x procs x Parallelism x MaxLoad x MachineCombiners x DoShuffleReaders (thorough: 1,075 configurations, 8,905 evaluations): executor {local, verifsystem}, cluster shape, Parallelism, MaxLoad, "
               "MachineCombiners, vector size, sort canary, spill batch, shuffle-reader randomisation, and Procs/Exclusive/Materialize pragmas at every pipeline position; process-wide sizes are set per child process. Oracle: rows equal the reference "
               "evaluator's and the default configuration's (multiset; sequence where fixed); Scan/WriterFunc observers see each row once; user metric counters read from Result.Scope() equal the reference row counts and the default's "
